@@ -5,6 +5,7 @@ import (
 	"encoding/hex"
 	"encoding/json"
 	"fmt"
+	"net/netip"
 	"time"
 
 	"github.com/jwhited/corebgp"
@@ -30,6 +31,12 @@ type c14Case struct {
 	// Prev >= 0: the judged OPEN is the one of a SECOND connection; on the first one the remote
 	// negotiated with hold time Prev and then ended the session with a Cease.
 	Prev int `json:"previous_session_remote_hold"`
+	// Mutate (with Prev >= 0): between the two connections the plugin edits the value octets of its one
+	// capability list in place; the second OPEN carries the edited octets.
+	Mutate bool `json:"plugin_edits_values_in_place,omitempty"`
+	// Mapped: the router id is handed to NewServer in its IPv4-mapped IPv6 form; if the server takes it,
+	// the OPEN carries the IPv4 address all the same.
+	Mapped bool `json:"router_id_ipv4_mapped,omitempty"`
 }
 
 func c14Run(cs c14Case, trace bool) (rule, msg string, representable bool, rep map[string]any) {
@@ -44,7 +51,7 @@ func c14Run(cs c14Case, trace bool) (rule, msg string, representable bool, rep m
 		if c.Code == 65 {
 			continue
 		}
-		want = append(want, wire.Cap{Code: c.Code, Value: v})
+		want = append(want, wire.Cap{Code: c.Code, Value: append([]byte{}, v...)})
 		total += 2 + len(v)
 		if len(v) > 255 {
 			representable = false
@@ -58,10 +65,37 @@ func c14Run(cs c14Case, trace bool) (rule, msg string, representable bool, rep m
 	var firstErr error
 	var rem *world.Remote
 	second := false
-	s := &Sess{LocalAS: cs.LocalAS, RemoteAS: 65002, RouterID: cs.RouterID, Hold: cs.Hold, Inbound: cs.Inbound,
+	routerAddr := ""
+	if cs.Mapped {
+		routerAddr = "::ffff:" + ip4(cs.RouterID)
+		if _, err := corebgp.NewServer(netip.MustParseAddr(routerAddr)); err != nil {
+			return "", "", representable, map[string]any{"case": cs} // refused: nothing is announced
+		}
+	}
+	s := &Sess{LocalAS: cs.LocalAS, RemoteAS: 65002, RouterID: cs.RouterID, RouterAddr: routerAddr, Hold: cs.Hold, Inbound: cs.Inbound,
 		Reconnect: cs.Prev >= 0, Horizon: 20 * time.Second,
 		Plugin: func(w *world.World) *world.Plugin {
-			return &world.Plugin{W: w, Peer: "P1", NoYield: true, Caps: caps}
+			p := &world.Plugin{W: w, Peer: "P1", NoYield: true, Caps: caps}
+			if cs.Mutate {
+				p.CapsHook = func(p *world.Plugin, call int) {
+					if call != 2 {
+						return
+					}
+					for i := range p.Caps {
+						for j := range p.Caps[i].Value {
+							p.Caps[i].Value[j] ^= 0xa5
+						}
+					}
+					for i := range want {
+						if want[i].Code != 65 {
+							for j := range want[i].Value {
+								want[i].Value[j] ^= 0xa5
+							}
+						}
+					}
+				}
+			}
+			return p
 		},
 		Script: func(w *world.World, r *world.Remote) {
 			if cs.Prev >= 0 && !second {
@@ -243,6 +277,14 @@ func c14Check(c *harness.Ctx) {
 		}
 		return true
 	}
+	// the router id in IPv4-mapped form
+	for _, rid := range []uint32{0x00000001, 0x0a000001, 0xc0000201, 0xffffffff} {
+		for _, inbound := range []bool{true, false} {
+			if !run(c14Case{LocalAS: 65001, Hold: 90, RouterID: rid, Inbound: inbound, Prev: -1, Mapped: true}) {
+				return
+			}
+		}
+	}
 	// the OPEN of a second connection after a session that negotiated another hold time
 	for _, h := range []int{0, 9, 90, 65535} {
 		for _, prev := range []int{0, 3, 30} {
@@ -259,6 +301,9 @@ func c14Check(c *harness.Ctx) {
 					with65 := append([]c14Cap{{65, "0000fde9"}}, l...)
 					mid65 := append(append([]c14Cap{}, l...), c14Cap{65, "0000fde9"}, c14Cap{1, "00010001"})
 					for _, caps := range [][]c14Cap{l, with65, mid65} {
+						if !run(c14Case{LocalAS: 65001, Hold: h, RouterID: 0x0a000001, Inbound: inbound, Prev: prev, Caps: caps, Mutate: true}) {
+							return
+						}
 						if !run(c14Case{LocalAS: 65001, Hold: h, RouterID: 0x0a000001, Inbound: inbound, Prev: prev, Caps: caps}) {
 							return
 						}
